@@ -89,7 +89,7 @@ theorem matchAt_width (r : Re) (s : Bytes) (n : Nat) (h : matchAt r s = some n) 
   omega
 
 /-- an end-anchored expression only matches up to the end of the input -/
-theorem matchAt_anchored (r : Re) (s : Bytes) (n : Nat) (h : matchAt (.seq r .eos) s = some n) : n = s.length := by
+theorem matchAt_anchored_len (r : Re) (s : Bytes) (n : Nat) (h : matchAt (.seq r .eos) s = some n) : n = s.length := by
   unfold matchAt at h
   unfold M at h
   obtain ⟨u, t, hs, hl, hk⟩ := M_width r s _ n h
@@ -176,7 +176,7 @@ theorem search_heldback (r : Re) (fw sb : Bytes)
       cases hm : matchAt (.seq r .eos) ((fw ++ sb).drop j) with
       | none => rfl
       | some n =>
-        have h1 := matchAt_anchored r _ n hm
+        have h1 := matchAt_anchored_len r _ n hm
         have h2 := matchAt_width _ _ n hm
         rw [List.length_drop, List.length_append] at h1
         omega
